@@ -319,10 +319,64 @@ uint32_t crc_legacy(const uint8_t *p, size_t n)
 /* =================== sizes =================== */
 /* ISA-L adapters: the padding unit follows the word size the instance was created with (8, 16 or 32 bits; 0 =
  * default 8) although the arithmetic is always GF(2^8).  Set by the harness whenever it creates an instance. */
+/* =================== GF(2^w) for the libJerasure stand-in =================== */
+int gfw_ok(int w) { return w == 4 || w == 8 || w == 16 || w == 32; }
+static uint64_t gfw_poly(int w) { return w == 4 ? 0x13 : w == 8 ? 0x11d : w == 16 ? 0x1100b : 0x100400007ull; }
+uint32_t gfw_mul(uint32_t a, uint32_t b, int w)
+{
+    uint64_t r = 0, aa = a, top = 1ull << w, poly = gfw_poly(w);
+    while (b) { if (b & 1) r ^= aa; b >>= 1; aa <<= 1; if (aa & top) aa ^= poly; }
+    return (uint32_t)r;
+}
+uint32_t gfw_inv(uint32_t a, int w)
+{
+    /* a^(2^w - 2) by square and multiply */
+    uint32_t r = 1, s = a;
+    for (int i = 1; i < w; i++) { s = gfw_mul(s, s, w); r = gfw_mul(r, s, w); }
+    return r;
+}
+uint32_t jer_coeff(int cauchy, int k, int m, int w, int i, int j)
+{
+    return gfw_inv(cauchy ? (uint32_t)(i ^ (m + j)) : (uint32_t)((k + i) ^ j), w);
+}
+void jer_vand_model_parity(int k, int m, int w, const uint8_t *const *data, size_t len, int r, uint8_t *out)
+{
+    int wb = w / 8;
+    for (size_t x = 0; x + (size_t)wb <= len; x += (size_t)wb) {
+        uint32_t acc = 0;
+        for (int j = 0; j < k; j++) {
+            uint32_t v = 0;
+            for (int b = 0; b < wb; b++) v |= (uint32_t)data[j][x + (size_t)b] << (8 * b);
+            acc ^= gfw_mul(jer_coeff(0, k, m, w, r - k, j), v, w);
+        }
+        for (int b = 0; b < wb; b++) out[x + (size_t)b] = (uint8_t)(acc >> (8 * b));
+    }
+}
+void jer_cauchy_model_parity(int k, int m, int w, int packet, const uint8_t *const *data, size_t len, int r, uint8_t *out)
+{
+    size_t stretch = (size_t)w * (size_t)packet;
+    for (size_t x = 0; x < len; x++) out[x] = 0;
+    for (int j = 0; j < k; j++) {
+        uint32_t e = jer_coeff(1, k, m, w, r - k, j);
+        for (int b = 0; b < w; b++) {
+            uint32_t col = gfw_mul(e, 1u << b, w);                   /* e * 2^b */
+            for (int a = 0; a < w; a++) if (col >> a & 1)
+                for (size_t off = 0; off + stretch <= len; off += stretch)
+                    for (int y = 0; y < packet; y++) out[off + (size_t)a * (size_t)packet + (size_t)y] ^= data[j][off + (size_t)b * (size_t)packet + (size_t)y];
+        }
+    }
+}
+
 int ref_isal_word_bits = 0;
 int ref_word_bytes(int backend)
 {
     { int wb = __atomic_load_n(&ref_isal_word_bits, __ATOMIC_RELAXED); if ((backend == REF_BE_ISAL_VAND || backend == REF_BE_ISAL_CAUCHY) && wb >= 8) return wb / 8; }
+    /* libJerasure adapters: the explicit word size, default 16 (Vandermonde) / 4 (Cauchy); the Cauchy adapter pads every
+     * fragment to whole stretches of w packets of sizeof(long)*128 bytes */
+    { int wb = __atomic_load_n(&ref_isal_word_bits, __ATOMIC_RELAXED);
+      if (backend == REF_BE_JER_VAND) return (wb > 0 ? wb : 16) / 8;
+      if (backend == REF_BE_JER_CAUCHY) return (wb > 0 ? wb : 4) * 1024;
+      if (backend == REF_BE_PHAZR) return (wb > 0 ? wb : 64) / 8; }
     switch (backend) {
     case REF_BE_RSVAND: return 2;
     case REF_BE_XOR: return 4;
@@ -333,7 +387,17 @@ int ref_word_bytes(int backend)
     return 0;
 }
 
-int ref_backend_metadata_bytes(int backend) { return backend == REF_BE_SHSS ? 32 : 0; }
+int ref_phazr_hd = 0;
+uint64_t ref_backend_metadata_bytes(int backend, uint64_t payload)
+{
+    if (backend == REF_BE_SHSS) return 32;
+    if (backend == REF_BE_PHAZR) {
+        int wb = __atomic_load_n(&ref_isal_word_bits, __ATOMIC_RELAXED), hd = __atomic_load_n(&ref_phazr_hd, __ATOMIC_RELAXED);
+        uint64_t ws = (uint64_t)((wb > 0 ? wb : 64) / 8), den = ws - (uint64_t)(hd > 0 ? hd : 1);
+        return ((payload + den - 1) / den) * ws - payload;
+    }
+    return 0;
+}
 
 uint64_t ref_aligned_size(int backend, int k, uint64_t len)
 {
